@@ -350,6 +350,12 @@ def classify(sc, r, planned=()):
     return None
 
 
+def pregen():
+    """tables regenerated from /repo before the Coq build: the status table of the second layer (checks/C14b.py)"""
+    from checks import C14b
+    C14b.pregen()
+
+
 def run(ck):
     big = ck.tier == "thorough"
     vlib.build_impl()
@@ -539,10 +545,17 @@ def run(ck):
                               "explored lost data silently, crashed, or failed to retry"}, nofail=True)
     ck.extra["observations_outside_the_property"] = observations[:3]
     ck.extra["input_distribution"] = stats
+    # second layer: status-propagation table regenerated from the sources (translators/c14_errprop.py), generic
+    # theorem C14_error_propagates, fault injection under every unchecked row (checks/C14b.py, notes/C14b.md)
+    from checks import C14b
+    C14b.run_extra(ck)
 
 
 def replay(ck, path):
     r = json.load(open(path))
+    if r.get("level") == "c14b":
+        from checks import C14b
+        return C14b.replay(ck, path)
     vlib.build_impl()
     ipso = ip.build_interposer()
     if r.get("level") == "adfi":
